@@ -263,6 +263,7 @@ fn c11_plan_parts(quick: bool) -> Vec<Part> {
             parts.push(Part::Bfs(Box::new(c11_scn(&label, *m, *d, !quick)), lim(if quick { 5 } else { 5 }, 2_000_000, if quick { 8.0 } else { 300.0 })));
         }
     }
+    parts.push(Part::Bfs(Box::new(c11_ghost(!quick)), lim(if quick { 6 } else { 7 }, 2_000_000, if quick { 20.0 } else { 600.0 })));
     parts
 }
 
@@ -442,6 +443,32 @@ fn c19_ghost(full: bool) -> ChatScn {
     let mut s = super::ghost::ghost_scn("c19-ghost", &[Cat::UserModes, Cat::UserExistence, Cat::MaxUsers, Cat::ChanExistence, Cat::Membership], full);
     s.probes_for = vec![(0, "LUSERS"), (0, "ISON alice bob bobby nosuch"), (0, "USERHOST alice bob bobby")];
     s.probe_focus = Some(Focus { cats: vec![], relays: false, relay_verbs: None, actor: true, actor_codes: Some(vec!["251", "252", "254", "255", "265", "266", "303", "302"]), closes: false });
+    s
+}
+
+/// C11 around a contended registration: whoever wins the nickname may become an
+/// operator; the connection that lost (or never finished) is not registered, so its
+/// KILL / DIE / WALLOPS / MODE must be answered 451 and do nothing, and it never
+/// shares the winner's privileges.
+fn c11_ghost(full: bool) -> ChatScn {
+    let mut s = super::ghost::ghost_scn("c11-ghost", crate::check::ALL_CATS, full);
+    s.cfg = oper_cfg(None);
+    for slot in [1usize, 2] {
+        s.alphabet_for.push((slot, "OPER op oppw"));
+    }
+    s.extra_actions = Some(Box::new(|_scn, v| {
+        let mut acts = vec![];
+        for slot in [1usize, 2] {
+            // a connection that holds a nick but is not registered tries operator commands
+            if v.life[slot] == Life::Live && v.nick(slot).is_none() && v.infos[slot].as_ref().map_or(false, |i| i.nick.is_some()) {
+                for l in ["KILL alice :x", "MODE bob -o", "WALLOPS :w", "DIE"] {
+                    acts.push(Act::Send(slot, l.to_string()));
+                }
+            }
+        }
+        acts
+    }));
+    s.focus = Focus { cats: ALL_CATS.to_vec(), relays: true, relay_verbs: None, actor: true, actor_codes: Some(vec!["451", "481", "381", "ERROR", "MODE", "WALLOPS"]), closes: true };
     s
 }
 
